@@ -188,30 +188,30 @@ where
         .find(|h: &&Header| h.field.equiv("Transfer-Encoding"))
         .map(|h| h.value.clone());
 
+    // every `Content-Length` value must be a plain decimal number, whichever header ends up
+    // deciding the framing: only `1*DIGIT` is valid (`usize::from_str` alone would also accept a
+    // leading `+`), and anything else must not be mistaken for "no body"
+    let mut first_content_length = None;
+    for h in headers
+        .iter()
+        .filter(|h: &&Header| h.field.equiv("Content-Length"))
+    {
+        let value = h.value.as_str();
+        if !value.bytes().all(|b| b.is_ascii_digit()) {
+            return Err(RequestCreationError::InvalidContentLength);
+        }
+        let length =
+            usize::from_str(value).map_err(|_| RequestCreationError::InvalidContentLength)?;
+        first_content_length.get_or_insert(length);
+    }
+
     // finding the content-length header
     let content_length = if transfer_encoding.is_some() {
         // if transfer-encoding is specified, the Content-Length
         // header must be ignored (RFC2616 #4.4)
         None
     } else {
-        match headers
-            .iter()
-            .find(|h: &&Header| h.field.equiv("Content-Length"))
-        {
-            None => None,
-            Some(h) => {
-                // only `1*DIGIT` is a valid value (`usize::from_str` alone would also accept a
-                // leading `+`); anything else must not be mistaken for "no body"
-                let value = h.value.as_str();
-                if !value.bytes().all(|b| b.is_ascii_digit()) {
-                    return Err(RequestCreationError::InvalidContentLength);
-                }
-                Some(
-                    usize::from_str(value)
-                        .map_err(|_| RequestCreationError::InvalidContentLength)?,
-                )
-            }
-        }
+        first_content_length
     };
 
     // true if the client sent a `Expect: 100-continue` header
